@@ -16,6 +16,7 @@ MODULES = [
     "contracts.c_total",
     "contracts.c_state",
     "contracts.c_text",
+    "contracts.c_langsel",
 ]
 
 STANDINS = [
@@ -50,6 +51,7 @@ LEVELS = {
     "C03": "other",
     "C18": "other",
     "C17": "other",
+    "C13": "other",
 }
 
 _COMMON = [
